@@ -9,7 +9,12 @@ import (
 	"github.com/hknutzen/Netspoc-Approve/go/pkg/vf"
 )
 
-var verifDst = []string{"default", "10.1.0.0/16", "10.1.1.0/24", "10.2.2.2"}
+// the /16 and the /24 share their network address
+var verifDst = []string{"default", "10.1.0.0/16", "10.1.0.0/24", "10.2.2.2"}
+
+// probe addresses: outside all networks, inside the /16 only, inside the /24,
+// the host; verifCovers[p] lists the destinations that contain probe p
+var verifCovers = [][]int{{0}, {0, 1}, {0, 1, 2}, {0, 3}}
 var verifHop = []string{"10.9.1.1", "10.9.1.2", "10.9.1.3"}
 
 type verifRoute struct {
@@ -30,7 +35,7 @@ func verifShowLine(r verifRoute, variant int) string {
 func verifSpocLine(r verifRoute, slash32 bool) string {
 	d := vf.SelectString(r.d, verifDst)
 	if slash32 {
-		d = vf.SelectString(r.d, []string{"default", "10.1.0.0/16", "10.1.1.0/24", "10.2.2.2/32"})
+		d = vf.SelectString(r.d, []string{"default", "10.1.0.0/16", "10.1.0.0/24", "10.2.2.2/32"})
 	}
 	return "ip route add " + d + " via " + vf.SelectString(r.h, verifHop)
 }
@@ -55,6 +60,17 @@ func (m *verifRouteModel) hasDst(d int) bool {
 	f := false
 	for _, x := range m.routes {
 		f = vf.Or(f, vf.TermBool(vf.EqInt(x.d, d)))
+	}
+	return f
+}
+
+// covered: some active route contains probe address p
+func (m *verifRouteModel) covered(p int) bool {
+	f := false
+	for _, x := range m.routes {
+		for _, d := range verifCovers[p] {
+			f = vf.Or(f, vf.TermBool(vf.EqInt(x.d, d)))
+		}
 	}
 	return f
 }
@@ -100,7 +116,7 @@ func (m *verifRouteModel) exec(chg string) {
 // VerifRoutes: all pairs of route sets.
 func VerifRoutes() {
 	N, _ := strconv.Atoi(vf.Param("N", "2"))
-	vf.Assumption("routes are drawn from 4 destinations (default, /16, /24, host) x 3 next hops; device and target may have several routes to one destination; device lines in 'ip route show' spelling (plain, with 'dev eth0') plus one kernel/link-scope line that must be ignored")
+	vf.Assumption("routes are drawn from 4 destinations (default, a /16, a /24 with the same network address inside it, a host) x 3 next hops; 4 probe addresses (outside, in the /16 only, in the /24, the host); device and target may have several routes to one destination; device lines in 'ip route show' spelling (plain, with 'dev eth0') plus one kernel/link-scope line that must be ignored")
 	n := vf.Int("n", 0, N)
 	m := vf.Int("m", 0, N)
 	var A, B []verifRoute
@@ -149,6 +165,13 @@ func VerifRoutes() {
 			after := (&verifRouteModel{routes: B}).hasDst(d)
 			vf.Assert(vf.Or(vf.Not(vf.And(before, after)), model.hasDst(d)),
 				"C14: Linux: a destination that has a route before and after the change has none at an intermediate step")
+		}
+		// the same for addresses: routed (by any containing route) before and after
+		for p := range verifCovers {
+			before := (&verifRouteModel{routes: A}).covered(p)
+			after := (&verifRouteModel{routes: B}).covered(p)
+			vf.Assert(vf.Or(vf.Not(vf.And(before, after)), model.covered(p)),
+				"C14: Linux: an address that is routed before and after the change is unrouted at an intermediate step")
 		}
 	}
 	lbl := "C05"
